@@ -41,6 +41,21 @@ pub struct Case12b {
     /// format 4 only (no file: `WeakDom::new` on nested builders): token carried by the DOM root itself
     #[serde(default)]
     pub root_token: u8,
+    /// 0 = none; t = every node that carries a UniqueId names the property twice: first with
+    /// token t (when that differs from its own), then with its own. Binary: two PROP chunks of
+    /// one name; XML: two elements; builders: two entries. Which entry wins is the
+    /// implementation's choice - the bookkeeping must agree with what the instance ends up holding.
+    /// Format 5 = like 4, but every top-level tree goes through the public `WeakDom::insert`.
+    #[serde(default)]
+    pub decoy: u8,
+}
+
+fn decoy_for(c: &Case12b, i: usize) -> Option<UniqueId> {
+    if c.decoy == 0 || c.tokens[i] == 0 || c.tokens[i] == c.decoy {
+        None
+    } else {
+        token_id(c.decoy)
+    }
 }
 
 fn plan_of(c: &Case12b) -> Plan {
@@ -61,12 +76,16 @@ fn plan_of(c: &Case12b) -> Plan {
 
 fn xml_of(c: &Case12b) -> String {
     let plan = plan_of(c);
-    fn item(plan: &Plan, i: usize, props_last: bool, out: &mut String) {
+    let decoys: Vec<Option<UniqueId>> = (0..plan.nodes.len()).map(|i| decoy_for(c, i)).collect();
+    fn item(plan: &Plan, decoys: &[Option<UniqueId>], i: usize, props_last: bool, out: &mut String) {
         let n = &plan.nodes[i];
         out.push_str(&format!("<Item class=\"{}\" referent=\"R{}\">", n.class, i));
         let mut props = format!("<Properties><string name=\"Name\">{}</string>", n.name);
         for (k, v) in &n.props {
             if let PVal::V(Variant::UniqueId(id)) = v {
+                if let Some(d) = decoys[i] {
+                    props.push_str(&format!("<UniqueId name=\"{}\">{}</UniqueId>", k, d));
+                }
                 props.push_str(&format!("<UniqueId name=\"{}\">{}</UniqueId>", k, id));
             }
         }
@@ -75,7 +94,7 @@ fn xml_of(c: &Case12b) -> String {
             out.push_str(&props);
         }
         for ch in plan.children_of(Some(i)) {
-            item(plan, ch, props_last, out);
+            item(plan, decoys, ch, props_last, out);
         }
         if props_last {
             out.push_str(&props);
@@ -84,7 +103,7 @@ fn xml_of(c: &Case12b) -> String {
     }
     let mut s = String::from("<roblox version=\"4\">");
     for r in plan.children_of(None) {
-        item(&plan, r, c.format == 3, &mut s);
+        item(&plan, &decoys, r, c.format == 3, &mut s);
     }
     s.push_str("</roblox>");
     s
@@ -100,7 +119,42 @@ pub fn file_of(c: &Case12b) -> Result<Vec<u8>, String> {
                 e.referents = (0..n).map(|i| 10 + (n - 1 - i) * 3).collect();
                 e.inst_order.reverse();
             }
-            enc::encode(&plan, &e)
+            let real = enc::encode(&plan, &e)?;
+            if c.decoy == 0 {
+                return Ok(real);
+            }
+            // the same file with the decoy values: its UniqueId PROP chunks are spliced in front of
+            // the real ones (base encoding: every chunk is stored uncompressed)
+            let mut dplan = plan.clone();
+            for (i, n) in dplan.nodes.iter_mut().enumerate() {
+                if let Some(d) = decoy_for(c, i) {
+                    n.props = vec![("UniqueId".to_owned(), PVal::V(Variant::UniqueId(d)))];
+                }
+            }
+            let decoy_file = enc::encode(&dplan, &e)?;
+            let chunks = |b: &[u8]| -> Vec<(usize, usize)> {
+                let mut v = Vec::new();
+                let mut p = 32;
+                while p + 16 <= b.len() {
+                    let len = u32::from_le_bytes(b[p + 8..p + 12].try_into().unwrap()) as usize;
+                    v.push((p, p + 16 + len));
+                    p += 16 + len;
+                }
+                v
+            };
+            let is_uid_prop = |b: &[u8], (s, e): (usize, usize)| -> bool { &b[s..s + 4] == b"PROP" && e - s > 16 + 8 + 8 && &b[s + 16 + 8..s + 16 + 16] == b"UniqueId" };
+            let (rc, dc) = (chunks(&real), chunks(&decoy_file));
+            if rc.len() != dc.len() {
+                return Err("decoy file has another chunk structure".into());
+            }
+            let mut out = real[..32].to_vec();
+            for (k, &(s, e2)) in rc.iter().enumerate() {
+                if is_uid_prop(&real, (s, e2)) && is_uid_prop(&decoy_file, dc[k]) && real[s..e2] != decoy_file[dc[k].0..dc[k].1] {
+                    out.extend_from_slice(&decoy_file[dc[k].0..dc[k].1]);
+                }
+                out.extend_from_slice(&real[s..e2]);
+            }
+            Ok(out)
         }
         _ => Ok(xml_of(c).into_bytes()),
     }
@@ -138,9 +192,13 @@ fn probe(dom: &mut WeakDom, id: UniqueId) -> bool {
 
 pub fn judge(c: &Case12b) -> Vec<(String, String)> {
     let mut out = Vec::new();
-    let fmt = ["binary", "binary", "xml", "xml", "new"][c.format as usize];
-    let desc = format!("{} parents={:?} ids={:?}{}{}", ["binary", "binary(reversed numbering)", "xml", "xml(Properties last)", "WeakDom::new(nested builders)"][c.format as usize], c.parents, c.tokens.iter().map(|&t| token_name(t)).collect::<Vec<_>>(), if c.same_class { " one class" } else { "" }, if c.format == 4 { format!(" root={}", token_name(c.root_token)) } else { String::new() });
-    let bytes = if c.format == 4 {
+    let fmt = ["binary", "binary", "xml", "xml", "new", "insert"][c.format as usize];
+    // (the XML reader's listed finding - it bypasses the bookkeeping altogether - is the same
+    // finding whether or not an element is repeated, so XML keys carry no suffix)
+    let fmt = if c.decoy != 0 && !fmt.starts_with("xml") { format!("{}+twice", fmt) } else { fmt.to_owned() };
+    let fmt = fmt.as_str();
+    let desc = format!("{} parents={:?} ids={:?}{}{}", ["binary", "binary(reversed numbering)", "xml", "xml(Properties last)", "WeakDom::new(nested builders)", "WeakDom::insert(nested builders)"][c.format as usize], c.parents, c.tokens.iter().map(|&t| token_name(t)).collect::<Vec<_>>(), if c.same_class { " one class" } else { "" }, if c.format >= 4 { format!(" root={}{}", token_name(c.root_token), if c.decoy != 0 { format!(" named twice, first as {}", token_name(c.decoy)) } else { String::new() }) } else if c.decoy != 0 { format!(" named twice, first as {}", token_name(c.decoy)) } else { String::new() });
+    let bytes = if c.format >= 4 {
         Vec::new()
     } else {
         match file_of(c) {
@@ -150,18 +208,22 @@ pub fn judge(c: &Case12b) -> Vec<(String, String)> {
     };
     let res = crate::evidence::guarded(|| match c.format {
         0 | 1 => rbx_binary::from_reader(bytes.as_slice()).map_err(|e| e.to_string()),
-        4 => {
+        4 | 5 => {
             let plan = plan_of(c);
-            fn b(plan: &Plan, i: usize) -> InstanceBuilder {
+            let decoys: Vec<Option<UniqueId>> = (0..plan.nodes.len()).map(|i| decoy_for(c, i)).collect();
+            fn b(plan: &Plan, decoys: &[Option<UniqueId>], i: usize) -> InstanceBuilder {
                 let n = &plan.nodes[i];
                 let mut x = InstanceBuilder::new(n.class.as_str()).with_name(n.name.as_str());
+                if let Some(d) = decoys[i] {
+                    x = x.with_property("UniqueId", d);
+                }
                 for (k, v) in &n.props {
                     if let PVal::V(v) = v {
                         x = x.with_property(k.as_str(), v.clone());
                     }
                 }
                 for ch in plan.children_of(Some(i)) {
-                    x = x.with_child(b(plan, ch));
+                    x = x.with_child(b(plan, decoys, ch));
                 }
                 x
             }
@@ -169,10 +231,19 @@ pub fn judge(c: &Case12b) -> Vec<(String, String)> {
             if let Some(id) = token_id(c.root_token) {
                 root = root.with_property("UniqueId", id);
             }
-            for t in plan.children_of(None) {
-                root = root.with_child(b(&plan, t));
+            if c.format == 4 {
+                for t in plan.children_of(None) {
+                    root = root.with_child(b(&plan, &decoys, t));
+                }
+                Ok(WeakDom::new(root))
+            } else {
+                let mut dom = WeakDom::new(root);
+                let rr = dom.root_ref();
+                for t in plan.children_of(None) {
+                    dom.insert(rr, b(&plan, &decoys, t));
+                }
+                Ok(dom)
             }
-            Ok(WeakDom::new(root))
         }
         _ => rbx_xml::from_reader_default(bytes.as_slice()).map_err(|e| e.to_string()),
     });
@@ -189,7 +260,7 @@ pub fn judge(c: &Case12b) -> Vec<(String, String)> {
     };
     let mut order = preorder(&dom);
     let mut tokens = c.tokens.clone();
-    if c.format == 4 {
+    if c.format >= 4 {
         order.insert(0, dom.root_ref());
         tokens.insert(0, c.root_token);
     }
@@ -216,7 +287,25 @@ pub fn judge(c: &Case12b) -> Vec<(String, String)> {
     // (2) preserved unless it collided: every distinct file value is still held by exactly one of the
     // instances that carried it in the file, an instance whose value is unique in the file keeps it,
     // and an instance without the property in the file does not gain a colliding one
+    if c.decoy != 0 {
+        // which of the two entries wins is not specified: a node may hold either; a third value
+        // (a regenerated id) needs another carrier to collide with
+        let carriers = c.tokens.iter().filter(|&&t| t != 0).count();
+        let dv = token_id(c.decoy);
+        for k in 0..ids.len() {
+            if c.tokens[k] == 0 {
+                continue;
+            }
+            let own = token_id(c.tokens[k]);
+            if ids[k].is_some() && ids[k] != own && ids[k] != dv && carriers < 2 {
+                out.push((format!("c12b|{}|changed-without-collision", fmt), format!("node {} named {} and {} and holds {:?} after decoding although nothing else carries an id ({})", k, token_name(c.decoy), token_name(c.tokens[k]), ids[k].map(|u| u.to_string()), desc)));
+            }
+        }
+    }
     for t in 1..4u8 {
+        if c.decoy != 0 {
+            break;
+        }
         let v = token_id(t).unwrap();
         let carriers: Vec<usize> = (0..ids.len()).filter(|&k| c.tokens[k] == t).collect();
         if carriers.is_empty() {
@@ -285,12 +374,16 @@ pub fn cases(tier: Tier) -> Vec<Case12b> {
             for code in 0..total {
                 let mut c = code;
                 let tokens: Vec<u8> = (0..n).map(|_| { let x = (c % 4) as u8; c /= 4; x }).collect();
-                for format in 0..5u8 {
+                for format in 0..6u8 {
+                  for decoy in 0..4u8 {
+                    if decoy != 0 && !tokens.iter().any(|&t| t != 0 && t != decoy) {
+                        continue;
+                    }
                     for same_class in [false, true] {
-                        if format == 4 {
+                        if format >= 4 {
                             if !same_class {
                                 for root_token in 0..4u8 {
-                                    out.push(Case12b { parents: parents.clone(), tokens: tokens.clone(), format, same_class, root_token });
+                                    out.push(Case12b { parents: parents.clone(), tokens: tokens.clone(), format, same_class, root_token, decoy });
                                 }
                             }
                             continue;
@@ -299,8 +392,9 @@ pub fn cases(tier: Tier) -> Vec<Case12b> {
                         if same_class && format < 2 && tokens.iter().any(|&t| t == 0) && tokens.iter().any(|&t| t != 0) {
                             continue;
                         }
-                        out.push(Case12b { parents: parents.clone(), tokens: tokens.clone(), format, same_class, root_token: 0 });
+                        out.push(Case12b { parents: parents.clone(), tokens: tokens.clone(), format, same_class, root_token: 0, decoy });
                     }
+                  }
                 }
             }
         }
